@@ -129,7 +129,7 @@ fn ecm_oneshot(mut pt: Point, curve: Ell, b1: u64, b2: u64) -> Result<(), BigInt
         }
     }
     // Step 2: try all primes in range (b1, b2]
-    for &init in &[b1.saturating_sub(1) / 6 * 6 + 1, (b1 + 1) / 6 * 6 - 1] {
+    for &init in &[b1.saturating_sub(1) / 6 * 6 + 1, ((b1 + 1) / 6 * 6).max(6) - 1] {
         let mut cur_e = init;
         let p6 = {
             let p2 = pt.add(&pt, &curve)?;
